@@ -69,6 +69,9 @@ def plan(tier, seed):
     specs += [{"what": "history", "part": i} for i in range(6)]
     specs += [{"what": "threads", "part": i} for i in range(2)]
     specs.append({"what": "race", "suites": ["mixed", "reader"]})
+    if tier == "thorough":
+        # coverage-guided search for a frame whose processing changes shared state
+        specs += [{"what": "atheris", "part": i, "corpus": "valid" if i % 2 else "empty"} for i in range(6)]
     return specs
 
 
@@ -91,6 +94,30 @@ def table_digests():
     for name in TABLES:
         out[name] = hashlib.blake2b(deep(getattr(pyubx2, name)).encode(), digest_size=8).hexdigest()
     out["VARIANTS"] = hashlib.blake2b(deep(VARIANTS).encode(), digest_size=8).hexdigest()
+    out.update(constants_digests())
+    return out
+
+
+def constants_digests():
+    """Module-level constants (numbers, strings, tuples: LEAPOFFSET, EPOCH0, the mode and
+    error codes, ...) of every module of the package, and the sizes of its tables:
+    processing messages rebinds none of them."""
+    import sys
+    import types
+
+    out = {}
+    for mname, mod in sorted(sys.modules.items()):
+        if not (mname == "pyubx2" or mname.startswith("pyubx2.")) or mod is None:
+            continue
+        simple = []
+        for k, v in sorted(vars(mod).items()):
+            if k.startswith("__") or isinstance(v, (types.ModuleType, types.FunctionType, type)) or callable(v):
+                continue
+            if isinstance(v, (int, float, str, bytes, tuple, frozenset, bool, type(None))) or type(v).__module__ == "datetime":
+                simple.append(f"{k}={v!r}")
+            elif isinstance(v, (dict, list, set)):
+                simple.append(f"len({k})={len(v)}")
+        out[f"constants of {mname}"] = hashlib.blake2b("\n".join(simple).encode(), digest_size=8).hexdigest()
     return out
 
 
@@ -696,6 +723,15 @@ def any_op():
 
 
 def run_shard(spec, ctx, acc):
+    if spec.get("what") == "atheris":
+        from vp.props import c08
+
+        prop_ = c08.PROP
+        try:
+            c08.PROP = PROP  # (the campaign driver is shared; it takes the property from the module)
+            return c08.run_atheris(spec, ctx, acc)
+        finally:
+            c08.PROP = prop_
     if spec.get("what") == "race":
         # steady-state concurrency (see vp/props/racing.py)
         for suite in spec["suites"]:
